@@ -66,6 +66,17 @@ THEOREMS = [
     "JanetModel.Props.C05.guarded_is_unguarded_below",
     "JanetModel.Props.C05.guard_clobbers_status_in_old_order",
     "JanetModel.Props.C05.macro_runs_exactly_once_guarded",
+    "JanetModel.Props.C05.status_monotone_guarded_sched",
+    "JanetModel.Props.C05.finished_is_forever_guarded_sched",
+    "JanetModel.Props.C05.macro_runs_exactly_once_guarded_sched",
+    "JanetModel.Props.C05.defer_runs_exactly_once_guarded_sched",
+    "JanetModel.Fiber.loopEnterG_G",
+    "JanetModel.Fiber.loopEnterG_res",
+    "JanetModel.Fiber.blocked_until_exit_guarded_sched",
+    "JanetModel.Props.C05.denv_never_reassigned",
+    "JanetModel.Props.C05.denv_never_reassigned_from_init",
+    "JanetModel.Props.C05.denv_never_reassigned_guarded_sched",
+    "JanetModel.Props.C05.dyn_table_and_proto_permanent",
     "JanetModel.Fiber.stepG_G",
     "JanetModel.Fiber.stepG_res",
     "JanetModel.Props.C05.dyn_visibility",
@@ -610,9 +621,11 @@ def run(ctx, only=None):
         "constants / shape flags and by four trace correspondences (plain, lowered recursion guard with janet_vm.stackn, event-loop task, &named)",
         "not modelled: breakpoints / single-stepping; a recursion-guard trip INSIDE a suspended child chain (`unmodelled`, 0 trees in the thorough tier); what the event "
         "loop does with a task's result (supervisor channel, stack trace) and tasks that signal event / interrupt to the loop (skipped, counted)",
-        "whole-execution status monotonicity AND the cleanup (`exactly once`) theorems are proved for the guarded machine at any limit and (separately) for "
-        "event-loop schedules; not for the combination of both in one execution",
-        "dynamic bindings: that a fiber's env index never changes once set is by inspection, not a whole-execution theorem (oracle R6 checks every dyn read)",
+        "whole-execution status monotonicity AND the cleanup (`exactly once`) theorems are proved for the guarded machine at any limit, for event-loop "
+        "schedules, and (session 4) for executions that interleave both (`runTG`); the combined machine's dispatch `loopEnterG` has no correspondence pass of "
+        "its own: it is `loopEnter` (task pass) below the limit and `unmodelled` at it",
+        "dynamic bindings: a fiber's env index never changes once set is a conjunct of the whole-execution step relation (`denv_never_reassigned`); oracle R6 "
+        "still checks every dyn read against an independent table model",
         "cleanup `exactly once` is about exits of the body fiber; a body suspended for ever has not exited; `Priv` (gensym privacy) is a hypothesis"])
 
 
